@@ -33,6 +33,9 @@ type schedMonitor struct {
 	failed  bool
 	ops     int
 	oplog   []string // the last operations, for the violation report
+	// the priority tree was found broken: the real scheduler is not called any more (its walks
+	// over a cyclic structure do not end - not even the clean-up of the dying connection)
+	abandoned bool
 }
 
 func (m *schedMonitor) logOp(format string, args ...any) {
@@ -77,11 +80,20 @@ func (m *schedMonitor) tree(where string) {
 		m.w.mu.Unlock()
 		if problem != "" {
 			m.bad("sched_tree", "priority tree broken after %s: %s", where, problem)
+			// the real scheduler is not to be trusted with this structure any more (a walk
+			// over a cycle never ends): the connection is given up - the panic unwinds the
+			// serve loop and is confined to the connection by the proxy - so that the run
+			// can end and report what was recorded
+			m.abandoned = true
+			panic("verif: write scheduler monitor: priority tree broken, connection abandoned")
 		}
 	}
 }
 
 func (m *schedMonitor) OpenStream(id uint32, o http2.OpenStreamOptions) {
+	if m.abandoned {
+		return
+	}
 	m.ops++
 	m.logOp("Open(%d,pusher=%d)", id, o.PusherID)
 	m.inner.OpenStream(id, o)
@@ -89,6 +101,9 @@ func (m *schedMonitor) OpenStream(id uint32, o http2.OpenStreamOptions) {
 }
 
 func (m *schedMonitor) CloseStream(id uint32) {
+	if m.abandoned {
+		return
+	}
 	m.ops++
 	m.logOp("Close(%d)", id)
 	m.w.mu.Lock()
@@ -101,6 +116,9 @@ func (m *schedMonitor) CloseStream(id uint32) {
 }
 
 func (m *schedMonitor) AdjustStream(id uint32, p http2.PriorityParam) {
+	if m.abandoned {
+		return
+	}
 	m.ops++
 	m.logOp("Adjust(%d,dep=%d,excl=%v,w=%d)", id, p.StreamDep, p.Exclusive, p.Weight)
 	m.w.mu.Lock()
@@ -111,6 +129,9 @@ func (m *schedMonitor) AdjustStream(id uint32, p http2.PriorityParam) {
 }
 
 func (m *schedMonitor) Push(wr http2.FrameWriteRequest) {
+	if m.abandoned {
+		return
+	}
 	m.ops++
 	v := http2.VerifInspect(wr)
 	m.logOp("Push(%s,stream=%d,len=%d)", v.Kind, v.StreamID, len(v.Data))
@@ -131,6 +152,9 @@ func (m *schedMonitor) Push(wr http2.FrameWriteRequest) {
 }
 
 func (m *schedMonitor) Pop() (http2.FrameWriteRequest, bool) {
+	if m.abandoned {
+		return http2.FrameWriteRequest{}, false
+	}
 	m.ops++
 	// windows before the pop (Consume deducts inside Pop)
 	avail := map[uint32]int32{}
